@@ -17,6 +17,33 @@ type c16Amt struct {
 
 func c16AmtCheck(c c16Amt) (fs []rep.Finding) {
 	script := bscript.NewFromBytes(refP2PKH(fill(20, 9)))
+	if c.Sats%997 == 0 {
+		// objects decoded with an EMPTY script own that script: it is built up in place by its owner,
+		// and the next object decoded from the same document still has an empty one
+		e := &bt.Output{Satoshis: c.Sats, LockingScript: &bscript.Script{}}
+		eu := &bt.UTXO{TxID: txid32(4), Vout: 1, Satoshis: c.Sats, LockingScript: &bscript.Script{}}
+		d1, _ := json.Marshal(e)
+		d2, _ := json.Marshal(e.NodeJSON())
+		d3, _ := json.Marshal(eu)
+		d4, _ := json.Marshal(eu.NodeJSON())
+		grow := func(s *bscript.Script) {
+			if s != nil {
+				_ = s.AppendOpcodes(bscript.OpFALSE, bscript.OpRETURN)
+				_ = s.AppendPushData([]byte("hello"))
+			}
+		}
+		for round := 0; round < 2; round++ {
+			var o1, o2 bt.Output
+			var u1, u2 bt.UTXO
+			errs := []error{json.Unmarshal(d1, &o1), json.Unmarshal(d2, o2.NodeJSON()), json.Unmarshal(d3, &u1), json.Unmarshal(d4, u2.NodeJSON())}
+			for i, sc := range []*bscript.Script{o1.LockingScript, o2.LockingScript, u1.LockingScript, u2.LockingScript} {
+				if errs[i] == nil && len(scriptBytes(sc)) != 0 {
+					fs = append(fs, rep.F("empty-script|shared-between-decoded-objects|"+[]string{"Output.json", "Output.node", "UTXO.json", "UTXO.node"}[i], fmt.Sprintf("an object decoded from a document with an empty script carries %x after another decoded object's script was built up in place", scriptBytes(sc))))
+				}
+				grow(sc)
+			}
+		}
+	}
 	// Output, library dialect
 	o := &bt.Output{Satoshis: c.Sats, LockingScript: script}
 	if b, err := json.Marshal(o); err != nil {
@@ -79,7 +106,7 @@ func c16AmtCheck(c c16Amt) (fs []rep.Finding) {
 
 type c16Tx struct {
 	R      txRecipe `json:"tx"`
-	Signed int      `json:"signed"` // 0 none (nil unlocking scripts), 1 first input only, 2 all, 3 empty non-nil scripts
+	Signed int      `json:"signed"` // 0 none (nil unlocking scripts), 1 first input only, 2 all, 3 empty non-nil scripts, 4 none and no record of the spent outputs, 5 first only, the others empty and without record
 	Script int      `json:"out_script_kind"`
 	Amt    uint64   `json:"amt"`
 }
@@ -157,6 +184,14 @@ func c16Build(c c16Tx) *bt.Tx {
 			in.UnlockingScript = nil
 		case c.Signed == 3:
 			in.UnlockingScript = &bscript.Script{}
+		case c.Signed == 4, c.Signed == 5 && i > 0:
+			// still to be signed AND without a record of the output it spends (a transaction that came
+			// from raw bytes or from a node document)
+			in.UnlockingScript = nil
+			if c.Signed == 5 {
+				in.UnlockingScript = &bscript.Script{}
+			}
+			in.PreviousTxScript, in.PreviousTxSatoshis = nil, 0
 		default:
 			in.UnlockingScript = bscript.NewFromBytes(append([]byte{0x47}, fill(0x47, byte(i))...))
 		}
@@ -559,7 +594,7 @@ func c16ListCheck(c c16List) (fs []rep.Finding) {
 
 func init() {
 	p := register(&Prop{ID: "C16", Level: "exploration",
-		Rule: "exhaustive: (amounts) every amount 0..2,000,000 (quick) / 0..100,000,000 (thorough) and ~8,300 decimal-boundary amounts up to 21e14 through Output and UTXO in both JSON dialects (marshal -> unmarshal -> equal satoshis/script/txid/vout); (transactions) product of shapes nIn 0..3 x nOut 0..3 x signing state {unsigned(nil scripts), first input only, all, empty scripts} x 59 output-script kinds (7 multisig-shaped scripts whose counts do not match their keys, P2PKH, empty, data with pushes of 1..5 bytes, multisig, inscription, odd pushes, 300 bytes, 12 scripts that end inside a push: every partial PUSHDATA1/2/4 length field and short payloads, and the inscription template with each token replaced by an empty PUSHDATA1 / PUSHDATA4 push) x boundary amounts x version/locktime values, plus coinbase-shaped transactions (null outpoint) in every signing state, each marshalled as Tx (library and node dialect), Txs list (node), []*Tx, per-output Output (both), UTXOs list (node) and []*UTXO (also with one outpoint named three times), a Tx variable decoded into twice (both dialects), the node-dialect lists also decoded into a list variable that was decoded into before (shorter, longer and empty lists): wrapper values (tx, list, output, UTXO) kept across an in-place edit and marshalled again; lists of 0..1000 distinct transactions / UTXOs (27 lengths around powers of two) through all four list forms; marshal must return (value or error, no panic) and the unmarshalled object must have identical Bytes()/TxID/scripts/satoshis. distinct_nontrivial = distinct amounts + distinct transaction serialisations round-tripped",
+		Rule: "exhaustive: (amounts) every amount 0..2,000,000 (quick) / 0..100,000,000 (thorough) and ~8,300 decimal-boundary amounts up to 21e14 through Output and UTXO in both JSON dialects (marshal -> unmarshal -> equal satoshis/script/txid/vout; for every 997th amount: objects decoded with an EMPTY script, that script built up in place by its owner, the same documents decoded again); (transactions) product of shapes nIn 0..3 x nOut 0..3 x signing state {unsigned(nil scripts), first input only, all, empty scripts; and unsigned / partially signed without any record of the spent outputs, as after decoding raw bytes} x 59 output-script kinds (7 multisig-shaped scripts whose counts do not match their keys, P2PKH, empty, data with pushes of 1..5 bytes, multisig, inscription, odd pushes, 300 bytes, 12 scripts that end inside a push: every partial PUSHDATA1/2/4 length field and short payloads, and the inscription template with each token replaced by an empty PUSHDATA1 / PUSHDATA4 push) x boundary amounts x version/locktime values, plus coinbase-shaped transactions (null outpoint) in every signing state, each marshalled as Tx (library and node dialect), Txs list (node), []*Tx, per-output Output (both), UTXOs list (node) and []*UTXO (also with one outpoint named three times), a Tx variable decoded into twice (both dialects), the node-dialect lists also decoded into a list variable that was decoded into before (shorter, longer and empty lists): wrapper values (tx, list, output, UTXO) kept across an in-place edit and marshalled again; lists of 0..1000 distinct transactions / UTXOs (27 lengths around powers of two) through all four list forms; marshal must return (value or error, no panic) and the unmarshalled object must have identical Bytes()/TxID/scripts/satoshis. distinct_nontrivial = distinct amounts + distinct transaction serialisations round-tripped",
 	})
 	sA := NewSpace(p, "amounts", c16AmtCheck)
 	sT := NewSpace(p, "transactions", c16TxCheck)
@@ -596,6 +631,16 @@ func init() {
 								cases = append(cases, c16Tx{R: txRecipe{V: v, LT: v ^ uint32(ai), NIn: nin, NOut: nout, Vout: uint32(ai), Seq: 0xffffffff - uint32(sk), SLen: 2, PrevSats: 5, PrevLen: 25, OLen: 1}, Signed: signed, Script: sk, Amt: a})
 							}
 						}
+					}
+				}
+			}
+		}
+		// unsigned / partially signed transactions whose unsigned inputs carry no record of the outputs they spend
+		for nin := 1; nin <= 3; nin++ {
+			for nout := 0; nout <= 2; nout++ {
+				for signed := 4; signed <= 5; signed++ {
+					for sk := 0; sk < 4; sk++ {
+						cases = append(cases, c16Tx{R: txRecipe{V: 1, LT: 7, NIn: nin, NOut: nout, Vout: 2, Seq: 0xffffffff - uint32(sk), SLen: 2, PrevSats: 5, PrevLen: 25, OLen: 1}, Signed: signed, Script: sk, Amt: 1000})
 					}
 				}
 			}
